@@ -245,7 +245,32 @@ func (w *c03World) op(files *[]p9.File) {
 	f := (*files)[g.ch(len(*files))]
 	mark := len(fs.Calls)
 	calls := func() []*simfs.Call { return fs.Calls[mark:] }
-	sel := g.ch(25)
+	sel := g.ch(26)
+	if sel == 25 {
+		// Close: what the File's Close returns is what the caller gets
+		if len(*files) > 1 {
+			i := 1 + g.ch(len(*files)-1)
+			cf := (*files)[i]
+			*files = append(append([]p9.File{}, (*files)[:i]...), (*files)[i+1:]...)
+			be := w.arm("Close", false, nil)
+			err := cf.Close()
+			w.errFor = ""
+			if be != nil {
+				var closed *simfs.Call
+				for _, cl := range calls() {
+					// (the fault may have hit the Close of another File that a
+					// concurrent closer was dropping: then there is nothing to say)
+					if cl.Method == "Close" && cl.Err == be && cl.H == w.hof[cf] {
+						closed = cl
+					}
+				}
+				if closed != nil && errnoOf(err) != errnoOf(be) {
+					w.find("wrong-errno", "Close", "the File's Close failed with %v (%T): the caller must see errno %d, got %v", be, be, errnoOf(be), err)
+				}
+			}
+		}
+		return
+	}
 	if sel == 24 {
 		// Close one of the handles in a task of its own while the calls
 		// below go on: the handles they produce are theirs, whatever fid
@@ -579,7 +604,7 @@ func (w *c03World) op(files *[]p9.File) {
 			}
 			return
 		}
-		want := [6]uint64{uint64(uint32(pid)), uint64(lt), uint64(lf), st, ln, 0}
+		want := [6]uint64{uint64(int64(pid)), uint64(lt), uint64(lf), st, ln, 0}
 		if c.LockArgs != want || c.Client != cl {
 			w.find("wrong-args", "Lock", "Lock(%d,%d,%d,%d,%d,%q) reached the backend as %v %q", pid, lt, lf, st, ln, trunc(cl, 20), c.LockArgs, trunc(c.Client, 20))
 		}
